@@ -239,6 +239,15 @@ func mkRecord(level slog.Level, msg string, nattrs int, salt int, withTime bool)
 	t := time.Time{}
 	if withTime {
 		t = time.Unix(1700000000+int64(salt), 5000).UTC()
+		// records carry the time of the caller's location: UTC, east and west of it, with odd offsets
+		switch salt % 4 {
+		case 1:
+			t = t.In(time.FixedZone("EEST", 3*3600))
+		case 2:
+			t = t.In(time.FixedZone("", -(9*3600 + 30*60)))
+		case 3:
+			t = t.In(time.FixedZone("LMT", 5*3600+53*60+28))
+		}
 	}
 	r := slog.NewRecord(t, level, msg, 0)
 	for i := 0; i < nattrs; i++ {
